@@ -1,4 +1,105 @@
-From Coq Require Import List NArith.
-From QV Require Import Dict.Model.
-Theorem placeholder_c16 : True. Proof. exact I. Qed.
-Print Assumptions placeholder_c16.
+(* C16: qt_dictionary (split-ordered list) is a map.  Sequential refinement for every operation sequence,
+   every user hash function (heavily colliding ones included) and across every table doubling; the
+   invariants; iteration completeness; the explicit preconditions with their refuted variants.
+   Per-key linearizability under concurrent mutation is NOT proved (searched by the check, see manifest). *)
+From Coq Require Import List NArith Bool Sorted.
+From QV Require Import Dict.Model Dict.ProofsBits Dict.Proofs Dict.IterProofs Dict.Refine.
+Import ListNotations.
+Local Open Scope N_scope.
+
+(* every operation sequence on non-NULL keys/values returns exactly what the map specification returns
+   (get = latest put or NULL; put replaces and returns the new value; put_if_absent inserts only when absent
+   and returns the value now associated; delete removes and returns the removed value or NULL) *)
+Theorem dict_refines_map :
+  forall (hash : N -> N) (keq : N -> N -> bool), (forall a b, keq a b = true <-> a = b) ->
+  forall (cap : N) (os : list op), Forall op_ok os ->
+  run_ops hash keq (create cap) os = spec_ops (fun _ => 0) os.
+Proof. exact refines_create. Qed.
+Print Assumptions dict_refines_map.
+
+(* in every reachable state: the list is sorted on so_key, every node is a dummy (NULL key/value) or a regular node whose
+   so_key is the bit-reversed masked hash of its key, one node per key, the table size is a power of two, bucket 0 is
+   initialised, every initialised bucket has its dummy node in the list, count bounds the number of keys *)
+Theorem dict_invariants :
+  forall (hash : N -> N) (keq : N -> N -> bool), (forall a b, keq a b = true <-> a = b) ->
+  forall (cap : N) (os : list op), Forall op_ok os ->
+  let d := final_state hash keq (create cap) os in
+  (StronglySorted (fun a b => e_so a <= e_so b) (d_list d) /\
+   Forall (fun e => (e_key e = 0 /\ e_val e = 0) \/
+                    (e_key e <> 0 /\ e_val e <> 0 /\ e_so e = so_regularkey (lkey_of hash (e_key e)))) (d_list d) /\
+   NoDup (keys_of (d_list d))) /\
+  (exists k, d_size d = 2 ^ k) /\
+  In 0 (d_B d) /\
+  (forall b, In b (d_B d) -> exists e, In e (d_list d) /\ e_so e = so_dummykey b /\ e_key e = 0) /\
+  N.of_nat (length (keys_of (d_list d))) <= d_count d.
+Proof. exact reachable_inv. Qed.
+Print Assumptions dict_invariants.
+
+(* the abstraction commutes: the state reached by the model represents the map reached by the specification *)
+Theorem dict_abs_commutes :
+  forall (hash : N -> N) (keq : N -> N -> bool), (forall a b, keq a b = true <-> a = b) ->
+  forall (cap : N) (os : list op), Forall op_ok os ->
+  forall k, k <> 0 -> abs (final_state hash keq (create cap) os) k = spec_final (fun _ => 0) os k.
+Proof. exact reachable_abs. Qed.
+Print Assumptions dict_abs_commutes.
+
+(* bucket_before_keys: at every power-of-two table size the dummy of the bucket a (masked) hash falls into sorts
+   strictly before the key's regular so_key, for every 63-bit hash value *)
+Theorem bucket_before_keys :
+  forall lk k : N, lk < 2 ^ 63 -> so_dummykey (lk mod 2 ^ k) < so_regularkey lk.
+Proof. exact so_dummy_lt_regular. Qed.
+Print Assumptions bucket_before_keys.
+
+(* initialize_bucket: the parent bucket's dummy sorts strictly before the child's (GET_PARENT clears the top bit) *)
+Theorem parent_before_child :
+  forall b : N, b <> 0 -> b < 2 ^ 64 ->
+  so_dummykey (get_parent b) < so_dummykey b /\ get_parent b < 2 ^ N.log2 b.
+Proof. exact parent_before_child_l. Qed.
+Print Assumptions parent_before_child.
+
+(* the REVERSE_BYTE multiplication trick is 8-bit reversal, REVERSE is 64-bit reversal *)
+Theorem reverse_is_bit_reversal :
+  (forall b, b < 256 -> reverse_byte b < 256 /\ forall i, i < 8 -> N.testbit (reverse_byte b) i = N.testbit b (7 - i)) /\
+  (forall x i, N.testbit (rev64 x) i = if i <? 64 then N.testbit x (63 - i) else false).
+Proof. exact (conj reverse_byte_spec rev64_bit). Qed.
+Print Assumptions reverse_is_bit_reversal.
+
+(* a search that starts at a bucket's dummy never stops at that dummy: the code never CASes a bucket slot *)
+Theorem bucket_slot_never_cas :
+  forall (hash : N -> N) (keq : N -> N -> bool), (forall a b, keq a b = true <-> a = b) ->
+  forall (d : dict) (b hk key : N),
+  (exists e, In e (d_list d) /\ e_so e = so_dummykey b) -> so_dummykey b < hk ->
+  (head_pos (so_dummykey b) (d_list d) < snd (find_from keq d b hk key))%nat.
+Proof. exact find_from_not_head. Qed.
+Print Assumptions bucket_slot_never_cas.
+
+(* iteration with no writer, after any operation sequence: every key present in the specification's map is returned
+   exactly once with its current value, and nothing else is returned *)
+Theorem iter_complete :
+  forall (hash : N -> N) (keq : N -> N -> bool), (forall a b, keq a b = true <-> a = b) ->
+  forall (cap : N) (os : list op), Forall op_ok os ->
+  let d := final_state hash keq (create cap) os in
+  NoDup (map fst (fst (iterate d))) /\
+  forall k v, k <> 0 -> (In (k, v) (fst (iterate d)) <-> (spec_final (fun _ => 0) os k = v /\ v <> 0)).
+Proof. exact iter_reachable. Qed.
+Print Assumptions iter_complete.
+
+(* the iteration order is the list order of the regular nodes (what the correspondence run compares) *)
+Theorem iter_is_list_order :
+  forall (hash : N -> N) (d : dict), Inv hash d -> fst (iterate d) = map kv (filter is_reg (d_list d)).
+Proof. exact iterate_complete. Qed.
+Print Assumptions iter_is_list_order.
+
+(* preconditions made explicit.  NULL key: put then get disagrees with the map *)
+Theorem null_key_put_refuted :
+  exists os, run_ops idh N.eqb (create 16) os <> spec_ops (fun _ => 0) os.
+Proof. exact null_key_refuted. Qed.
+Print Assumptions null_key_put_refuted.
+
+(* NULL value (keys non-NULL): find uses the VALUE as its "found" flag, so put(k,NULL); put(k,v) leaves two nodes for k
+   and the iterator returns k twice *)
+Theorem null_value_put_refuted :
+  exists os, Forall op_key_ok os /\
+  ~ NoDup (map fst (fst (iterate (final_state idh N.eqb (create 16) os)))).
+Proof. exact null_value_refuted. Qed.
+Print Assumptions null_value_put_refuted.
